@@ -208,6 +208,18 @@ class P:
                 path.append(self.next()[1])
             if self.opt("("):
                 return ("call", path, self.args())
+            if self.at("{") and not nostruct and path[-1] in ("Decimal", "Self", "Output"):
+                self.next()
+                fields = []
+                while not self.at("}"):
+                    fn_ = self.next()[1]
+                    if self.opt(":"):
+                        fields.append((fn_, self.expr()))
+                    else:
+                        fields.append((fn_, ("path", [fn_])))
+                    self.opt(",")
+                self.eat("}")
+                return ("struct", fields)
             if self.at("!"):   # macro call, e.g. panic!(...), debug_assert!(..), unreachable!()
                 self.next(); self.eat("(")
                 depth, toks = 1, []
@@ -222,6 +234,17 @@ class P:
 
     def if_expr(self):
         self.eat("if")
+        if self.opt("let"):
+            pt = self.pat()
+            self.eat("=")
+            scr = self.expr(nostruct=True)
+            th = self.block()
+            el = None
+            if self.opt("else"):
+                el = self.if_expr() if self.at("if") else self.block()
+            if el is None:
+                raise SyntaxError("`if let` without else")
+            return ("match", scr, [([pt], th), ([("pwild",)], el)])
         c = self.expr(nostruct=True)
         th = self.block()
         el = None
@@ -342,9 +365,12 @@ def lean_ty(t):
         return f"(Option {lean_ty(t[1])})"
     if t == "RoundingMode":
         return "Mode"
+    if t == "Decimal":
+        return "Model.Dec"
     raise Unsupported(f"type {t}")
 
 
+STRUCT_FIELDS = {"coeff": ("i128", "coeff"), "n_frac_digits": ("u8", "nfrac")}
 MODE_NAMES = {"Round05Up": ".r05up", "RoundCeiling": ".ceil", "RoundDown": ".down", "RoundFloor": ".floor",
               "RoundHalfDown": ".hdown", "RoundHalfEven": ".heven", "RoundHalfUp": ".hup", "RoundUp": ".up"}
 
@@ -433,11 +459,24 @@ class Emit:
                 return ARRAYS[e[1][1][-1]][0]
             at = self.type_of(e[1])
             return at[1] if isinstance(at, tuple) else "?"
+        if k == "struct":
+            return "Decimal"
         if k == "field":
+            if isinstance(e[2], str) and e[2] in STRUCT_FIELDS:
+                return STRUCT_FIELDS[e[2]][0]
             tt = self.type_of(e[1])
             if isinstance(tt, tuple) and tt[0] == "tuple":
                 return tt[1][e[2]]
         if k in ("if", "block", "match"):
+            if hint is not None:
+                return hint
+            try:
+                if k == "block" and e[2] is not None and not e[1]:
+                    return self.type_of(e[2])
+                if k == "if" and e[2][2] is not None and not e[2][1]:
+                    return self.type_of(e[2][2])
+            except Unsupported:
+                pass
             return hint
         if k == "try":
             tt = self.type_of(e[1])
@@ -529,8 +568,16 @@ class Emit:
             ls2, i = self.ex(e[2], "usize")
             v = self.fresh()
             return ls1 + ls2 + [f"let {v} ← Rt.index ({a}) ({i})"], v
+        if k == "struct":
+            ls, vals = [], {}
+            for fn_, fe in e[1]:
+                l, x = self.ex(fe, STRUCT_FIELDS[fn_][0])
+                ls += l; vals[fn_] = x
+            return ls, f"(⟨{vals['coeff']}, {vals['n_frac_digits']}⟩ : Model.Dec)"
         if k == "field":
             ls, x = self.ex(e[1])
+            if isinstance(e[2], str) and e[2] in STRUCT_FIELDS:
+                return ls, f"({x}).{STRUCT_FIELDS[e[2]][1]}"
             return ls, f"({x}).{e[2] + 1}"
         if k == "try":
             # `e?` in a function returning Option: early exit with None, written as a flat `let some v := … | pure none`
@@ -564,7 +611,24 @@ class Emit:
                 if l:
                     raise Unsupported("effect inside a value-position if")
                 return v
-            return lc, f"(if {xc} then {val(e[2])} else {val(e[3])})"
+            saved_tmp = self.tmp
+            try:
+                return lc, f"(if {xc} then {val(e[2])} else {val(e[3])})"
+            except Unsupported:
+                # arms with effects or statements: a monadic sub-block per arm
+                self.tmp = saved_tmp
+                if hint is None or e[3] is None:
+                    raise
+                ind = getattr(self, "cur_ind", 1) + 3
+                saved_ret, self.ret = self.ret, hint
+                try:
+                    thn = self.block_term(e[2], ind, None)
+                    els = self.tail_term(e[3], ind, None) if e[3][0] == "if" else self.block_term(e[3], ind, None)
+                finally:
+                    self.ret = saved_ret
+                v = self.fresh()
+                pad = "  " * (ind - 1)
+                return lc + [f"let {v} ← (if {xc} then (do\n{thn}{pad}) else (do\n{els}{pad}) : Outcome {lean_ty(hint)})"], v
         if k == "block" and not e[1] and e[2] is not None:
             return self.ex(e[2], hint)
         raise Unsupported(f"expression {k}")
@@ -717,6 +781,7 @@ class Emit:
 
     def stmts_term(self, stmts, tail, ind, k):
         pad = "  " * ind
+        self.cur_ind = ind
         if not stmts:
             if tail is None:
                 if k is None:
@@ -846,6 +911,7 @@ class Emit:
 
     def tail_term(self, e, ind, k):
         pad = "  " * ind
+        self.cur_ind = ind
         if e[0] == "if":
             _, c, th, el = e
             lc, xc = self.cond(c)
@@ -933,7 +999,8 @@ class Emit:
 
 
 # ----------------------------------------------------------------------------- driver
-GROUP_IMPORTS = {"KPow": ["Fpdec.Gen.Consts"], "KDivRounded": ["Fpdec.Gen.KRound", "Fpdec.Gen.KPow", "Fpdec.Model.Core"]}
+GROUP_IMPORTS = {"KPow": ["Fpdec.Gen.Consts"], "KDivRounded": ["Fpdec.Gen.KRound", "Fpdec.Gen.KPow", "Fpdec.Model.Core"],
+                 "KDecDiv": ["Fpdec.Gen.KDivRounded"], "KDecMul": ["Fpdec.Gen.KDivRounded", "Fpdec.Model.Decimal"]}
 KERNELS = [
     # (group, file, fn name, self type for trait methods)
     ("KPow", "fpdec-core/src/powers_of_ten.rs", "ten_pow", None),
@@ -946,6 +1013,8 @@ KERNELS = [
     ("KDivRounded", "fpdec-core/src/rounding.rs", "i128_div_rounded", None),
     ("KDivRounded", "fpdec-core/src/rounding.rs", "i128_shifted_div_rounded", None),
     ("KDivRounded", "fpdec-core/src/rounding.rs", "i128_mul_div_ten_pow_rounded", None),
+    ("KDecDiv", "src/binops/div_rounded.rs", "checked_div_rounded", None),
+    ("KDecMul", "src/binops/mul_rounded.rs", "checked_mul_rounded", None),
     ("KWide", "fpdec-core/src/lib.rs", "u128_hi", None),
     ("KWide", "fpdec-core/src/lib.rs", "u128_lo", None),
     ("KWide", "fpdec-core/src/lib.rs", "u128_mul_u128", None),
